@@ -9,6 +9,15 @@ as a channel; None = missing value, i.e. `None` or `NaN`).
 
 Labels in a case (JSON): int, str, {"f": "p/q"} = float-typed number, null = missing (built as
 `None` in a column that holds strings, as `NaN` otherwise).
+
+Round 5: the MEMORY LAYOUT of the measurement array is part of a case: `init['layout']` =
+{'perm': memory order of the axes (outermost first; [0,1,2] = C, [2,1,0] = Fortran, anything else a
+non-contiguous transpose), 'steps': [[step, offset] per axis] (a strided view into a larger buffer
+whose gaps hold JUNK), 'flips': [0/1 per axis] (negative strides)} and `init['dtype']` (float64 /
+float32 / int64 / int32).  Nothing on this side normalises an array between operations: the
+workspace holds the very arrays the library returned (e.g. the transposed buffer numpy's
+`a[:, :, idx]` leaves behind), and every step reports the layout class of the array it was applied
+to (`lay`), from which the engine derives the `layout:*` coverage tags.
 """
 import math
 import warnings
@@ -23,6 +32,74 @@ ABSENT_STR, ABSENT_NUM = '~absent~', 987654
 KEEPABLE = ('copy', 'split_obs', 'split_channel', 'split_time', 'subset_obs', 'subset_channel', 'subset_time',
             'odd_even', 'nested_odd_even', 'bin_time', 'time_as_observations', 'time_as_channels', 'df',
             'df_default')
+
+
+JUNK = -777          # what the gaps of a strided buffer hold (never a measurement)
+DTYPES = {'float64': np.float64, 'float32': np.float32, 'int64': np.int64, 'int32': np.int32}
+
+
+def lay_out(arr, layout, dtype='float64'):
+    """array equal in value to `arr` with the requested dtype and memory layout (see module doc);
+    works for any number of axes (a flat dataset uses the first two entries of the 3-axis spec)"""
+    arr = np.asarray(arr)
+    nd = arr.ndim
+    dt = DTYPES[dtype or 'float64']
+    layout = layout or {}
+    perm = [a for a in layout.get('perm', list(range(3))) if a < nd]
+    perm += [a for a in range(nd) if a not in perm]
+    steps = (list(layout.get('steps', [])) + [[1, 0]] * nd)[:nd]
+    flips = (list(layout.get('flips', [])) + [0] * nd)[:nd]
+    big = [max(int(st), 1) * n + max(int(off), 0) for (st, off), n in zip(steps, arr.shape)]
+    buf = np.full([big[a] for a in perm], JUNK, dtype=dt)          # C buffer in memory order
+    full = buf.transpose(np.argsort(perm))                            # logical axis order
+    sl = tuple(slice(max(int(off), 0), max(int(off), 0) + max(int(st), 1) * n, max(int(st), 1))
+               for (st, off), n in zip(steps, arr.shape))
+    out = full[sl]
+    out = out[tuple(slice(None, None, -1) if f else slice(None) for f in flips)]
+    out[...] = arr
+    return out
+
+
+def like(template, values):
+    """new array holding `values` with exactly the dtype, shape and strides of `template` (the
+    oracle re-tags measurements without touching the memory layout)"""
+    t = template
+    values = np.asarray(values)
+    item = t.itemsize
+    if t.size and not any(s % item for s in t.strides):
+        st = [s // item for s in t.strides]
+        span = sum(abs(s) * (n - 1) for s, n in zip(st, t.shape))
+        off = sum(-s * (n - 1) for s, n in zip(st, t.shape) if s < 0)
+        buf = np.full(span + 1, JUNK, dtype=t.dtype)
+        out = np.lib.stride_tricks.as_strided(buf[off:], shape=t.shape, strides=t.strides)
+        out[...] = values
+        if np.array_equal(out, values):         # (fails for self-overlapping strides: fall back)
+            return out
+    return np.array(values, dtype=t.dtype)
+
+
+def layout_class(a):
+    """'trivial' (C and F contiguous: at most one axis longer than 1), 'C', 'F' (Fortran-contiguous
+    and not C-contiguous), 'neg' (a negative stride), 'perm' (dense, axes stored in another order: a
+    non-contiguous transpose), 'strided' (gaps between elements)"""
+    if a.size == 0:
+        return 'empty'
+    c, f = bool(a.flags.c_contiguous), bool(a.flags.f_contiguous)
+    if c and f:
+        return 'trivial'
+    if c:
+        return 'C'
+    if f:
+        return 'F'
+    live = [(s, n) for s, n in zip(a.strides, a.shape) if n > 1]
+    if any(s < 0 for s, _ in live):
+        return 'neg'
+    span = sum(s * (n - 1) for s, n in live) + a.itemsize
+    return 'perm' if span == a.size * a.itemsize else 'strided'
+
+
+def dtype_class(a):
+    return 'int' if a.dtype.kind in 'iu' else str(a.dtype)
 
 
 def clbl(x):
@@ -121,6 +198,9 @@ def canon(ds):
 def build(init):
     """constructs the real object; `None` dictionaries and bare-string columns are passed as such"""
     meas = np.array(init['meas'], dtype=float)
+    if not init['temporal']:
+        meas = meas[:, :, 0]
+    meas = lay_out(meas, init.get('layout'), init.get('dtype'))
     kinds = init.get('kinds', {})
 
     def tbl(axis):
@@ -145,7 +225,7 @@ def build(init):
     if init['temporal']:
         return TemporalDataset(meas, descriptors=desc, obs_descriptors=tbl('obs'),
                                channel_descriptors=tbl('chan'), time_descriptors=tbl('time'))
-    return Dataset(meas[:, :, 0], descriptors=desc, obs_descriptors=tbl('obs'),
+    return Dataset(meas, descriptors=desc, obs_descriptors=tbl('obs'),
                    channel_descriptors=tbl('chan'))
 
 
@@ -508,11 +588,32 @@ def exc_name(exc):
     return 'other'
 
 
-def apply_step(ws, op):
+def step_layout(ws, op, args, origin=None):
+    """layout class / dtype / origin of the array(s) the operation is applied to (`merge` reads
+    every object of the workspace) -- read BEFORE the call"""
+    if not ws:
+        return []
+    objs = list(ws) if op['name'] == 'merge' else [ws[(args or {}).get('at', 0) % len(ws)]]
+    return [{'cls': layout_class(d.measurements), 'dtype': dtype_class(d.measurements),
+             'origin': (origin or {}).get(id(d), 'init')} for d in objs]
+
+
+def apply_step(ws, op, origin=None):
     """returns (step_result, new_workspace, raw) — library exceptions are mapped, never raised"""
+    res, new, raw = _apply_step(ws, op, origin)
+    if origin is not None and new is not ws:
+        old = {id(d) for d in ws}
+        for d in new:
+            if id(d) not in old:
+                origin[id(d)] = op['name']
+    return res, new, raw
+
+
+def _apply_step(ws, op, origin=None):
     args, adm, call = resolve(ws, op)
     if not adm:
         return {'args': args, 'out': 'inadmissible'}, ws, None
+    lay = step_layout(ws, op, args, origin)
     with warnings.catch_warnings():
         warnings.simplefilter('ignore')
         try:
@@ -526,13 +627,13 @@ def apply_step(ws, op):
         except Exception as exc:  # noqa: BLE001
             return {'args': args, 'out': {'exc': 'uncanonical:' + exc_name(exc), 'msg': str(exc)[:120]}}, ws, None
         if kind == 'rejected':
-            return {'args': args, 'out': 'rejected', 'ws': st}, ws, None
-        return {'args': args, 'out': {'query': val}, 'ws': st}, ws, val
+            return {'args': args, 'out': 'rejected', 'ws': st, 'lay': lay}, ws, None
+        return {'args': args, 'out': {'query': val}, 'ws': st, 'lay': lay}, ws, val
     try:
         st = [canon(x) for x in val]
     except Exception as exc:  # noqa: BLE001
         return {'args': args, 'out': {'exc': 'uncanonical:' + exc_name(exc), 'msg': str(exc)[:120]}}, ws, None
-    return {'args': args, 'out': {'state': st}}, list(val), val
+    return {'args': args, 'out': {'state': st}, 'lay': lay}, list(val), val
 
 
 def run_session(case):
@@ -540,11 +641,14 @@ def run_session(case):
     if d0 is None:
         return {'init': 'rejected', 'exc': exc, 'steps': []}
     init = canon(d0)          # read now: sort_by works in place on the workspace objects
+    m0 = d0.measurements
     ws = [d0]
     steps = []
+    origin = {}               # id(object) -> name of the operation that returned it
     for op in case['ops']:
-        res, ws, _ = apply_step(ws, op)
+        res, ws, _ = apply_step(ws, op, origin)
         steps.append(res)
         if isinstance(res['out'], dict) and 'exc' in res['out']:
             break     # the real state is gone; later steps cannot be compared
-    return {'init': init, 'steps': steps}
+    return {'init': init, 'steps': steps,
+            'init_lay': {'cls': layout_class(m0), 'dtype': dtype_class(m0)}}
